@@ -484,6 +484,86 @@ impl ractor::thread_local::ThreadLocalActor for TlProbe {
     }
 }
 
+/// A *Send* actor (same scripts) that is run through the thread-local API by way of ractor's blanket adapter
+/// `impl<T: Actor + Default> ThreadLocalActor for T`.
+#[derive(Default)]
+pub struct AdapterProbe;
+
+#[cfg_attr(feature = "alt", ractor::async_trait)]
+impl Actor for AdapterProbe {
+    type Msg = PMsg;
+    type State = TlState;
+    type Arguments = Arc<ProbeSpec>;
+
+    async fn pre_start(&self, myself: ActorRef<PMsg>, spec: Arc<ProbeSpec>) -> Result<TlState, ActorProcessingErr> {
+        spec.pid.store(pid_of(&myself.get_cell()), Ordering::SeqCst);
+        spec.run_script(Cb::PreStart, 0, &spec.pre_start, &myself).await?;
+        Ok(TlState { spec, st: PState { handled: 0 } })
+    }
+
+    async fn post_start(&self, myself: ActorRef<PMsg>, s: &mut TlState) -> Result<(), ActorProcessingErr> {
+        s.spec.run_script(Cb::PostStart, 0, &s.spec.post_start, &myself).await
+    }
+
+    async fn post_stop(&self, myself: ActorRef<PMsg>, s: &mut TlState) -> Result<(), ActorProcessingErr> {
+        s.spec.post_stop_saw.store(s.st.handled, Ordering::SeqCst);
+        s.spec.run_script(Cb::PostStop, s.st.handled, &s.spec.post_stop, &myself).await
+    }
+
+    async fn handle(&self, myself: ActorRef<PMsg>, msg: PMsg, s: &mut TlState) -> Result<(), ActorProcessingErr> {
+        match msg {
+            PMsg::Work(mut w) => {
+                w.token.handled = true;
+                s.st.handled += 1;
+                s.spec.trace.log(Ev::Handled { uid: s.spec.uid, sender: w.sender, seq: w.seq });
+                let id = ((w.sender as u64) << 32) | (w.seq & 0xffff_ffff);
+                s.spec.run_script(Cb::Handle, id, &w.script, &myself).await
+            }
+            PMsg::Call(mut w, reply) => {
+                w.token.handled = true;
+                s.st.handled += 1;
+                s.spec.trace.log(Ev::Handled { uid: s.spec.uid, sender: w.sender, seq: w.seq });
+                let id = ((w.sender as u64) << 32) | (w.seq & 0xffff_ffff);
+                let r = s.spec.run_script(Cb::Handle, id, &w.script, &myself).await;
+                let _ = reply.send(reply_fn(w.seq));
+                r
+            }
+            PMsg::Flush(reply) => {
+                let _ = reply.send(s.st.handled);
+                Ok(())
+            }
+        }
+    }
+
+    async fn handle_supervisor_evt(
+        &self,
+        myself: ActorRef<PMsg>,
+        mut evt: SupervisionEvent,
+        s: &mut TlState,
+    ) -> Result<(), ActorProcessingErr> {
+        s.spec.log_sup(&mut evt);
+        let r = s.spec.run_script(Cb::SupEvt, 0, &s.spec.sup_evt, &myself).await;
+        if s.spec.sup_policy == SupPolicy::StopOnChildExit {
+            if let SupervisionEvent::ActorTerminated(..) | SupervisionEvent::ActorFailed(..) = evt {
+                myself.stop(None);
+            }
+        }
+        r
+    }
+}
+
+pub async fn spawn_adapter_probe(
+    spec: &Arc<ProbeSpec>,
+    sup: Option<ActorCell>,
+    spawner: ractor::thread_local::ThreadLocalActorSpawner,
+) -> Result<(ActorRef<PMsg>, ractor::concurrency::JoinHandle<()>), SpawnErr> {
+    use ractor::thread_local::ThreadLocalActor;
+    match sup {
+        Some(s) => <AdapterProbe as ThreadLocalActor>::spawn_linked(spec.name.clone(), spec.clone(), s, spawner).await,
+        None => <AdapterProbe as ThreadLocalActor>::spawn(spec.name.clone(), spec.clone(), spawner).await,
+    }
+}
+
 pub async fn spawn_tl_probe(
     spec: &Arc<ProbeSpec>,
     sup: Option<ActorCell>,
